@@ -191,6 +191,11 @@ func (e *Env) Open(ck int, ad, cookie, out []byte, ok bool) {
 	e.open[hv.Tuple(hv.Ni(ck), e.Hx(ad), e.Hx(cookie))] = e.optHex(out, ok)
 }
 
+// Empty: no oracle value was recorded.
+func (e *Env) Empty() bool {
+	return len(e.dh)+len(e.decaps)+len(e.kem)+len(e.policy)+len(e.hash)+len(e.open) == 0
+}
+
 func assoc(m map[string]string) string {
 	ks := make([]string, 0, len(m))
 	for k := range m {
